@@ -19,15 +19,15 @@ import core
 
 ROOT = os.path.join(core.SCRATCH, "log", "r%d" % os.getpid())
 _made = [False]
-BASE = "lg"
+BASE = "lg"            # log i is named lg<i>
 TAG = "v"
 RULES = ["always", "once", "update", "change", "deck", "streak", "never"]
 RULENAME = {"never": "Never", "once": "Once", "always": "Always", "update": "Update", "change": "Change",
             "streak": "Streak", "deck": "Deck"}
 
 
-def header(rule):
-    return "text\t%s\t%s\n_time\t%s\n" % (RULENAME[rule], BASE, TAG)
+def header(rule, i=0):
+    return "text\t%s\t%s%d\n_time\t%s\n" % (RULENAME[rule], BASE, i, TAG)
 
 
 def _cleanup():
@@ -56,43 +56,70 @@ class Proxy(object):
         self.__dict__["_path"] = path
 
     def write(self, text):
-        self._rec.event("write", text)
+        self._rec.event("write", text, self._path)
         return self._f.write(text)
 
     def flush(self):
-        self._rec.event("flush", self._path)
+        self._rec.event("flush", None, self._path)
         return self._f.flush()
 
     def close(self):
         if not self._f.closed:
-            self._rec.event("close", self._path)
+            self._rec.event("close", None, self._path)
         return self._f.close()
 
     def __getattr__(self, name):
         return getattr(self._f, name)
 
 
-class Recorder(object):
-    """intercepts the primitives; before each one: count it, optionally die, snapshot the directory"""
+class LogAcct(object):
+    """what the oracle knows about one log of the logger"""
 
-    def __init__(self, kill_at=None, snapshots=True):
+    def __init__(self):
         self.paths = []               # newest first: main, copy 1, ...
-        self.n = 0
-        self.kill_at = kill_at
-        self.snapshots = snapshots
-        self.muted = False
-        self.snaps = []               # (state, surviving stream, n flushed, rotStart index, bounds)
         self.stream = []              # numbers of the records written and not lost with a killed process
         self.nf = 0                   # how many of them were written before the most recent completed flush
         self.pending_flush = None
         self.rot_start = 0
         self.bounds = []              # len(stream) at each rotation of the main file
         self.renames = []             # (k, size of source or None)
+
+    def settle(self):
+        if self.pending_flush is not None:
+            self.nf = self.pending_flush
+            self.pending_flush = None
+
+    def reset(self):
+        self.paths = []
+        del self.stream[:]
+        self.nf = 0
+        self.pending_flush = None
+        self.rot_start = 0
+        self.bounds = []
+
+
+class Recorder(object):
+    """intercepts the primitives; before each one: count it, optionally die, snapshot the directory"""
+
+    def __init__(self, nlogs, kill_at=None, snapshots=True):
+        self.logs = [LogAcct() for _ in range(nlogs)]
+        self.n = 0
+        self.kill_at = kill_at
+        self.snapshots = snapshots
+        self.muted = False
+        self.snaps = []               # per event: tuple over the logs of (state, stream, nf, rotStart, bounds)
         self.files = []               # proxies handed out in this life
 
-    def read_state(self):
+    def which(self, path):
+        for i, a in enumerate(self.logs):
+            if path in a.paths:
+                return i
+        return None
+
+    @staticmethod
+    def read_paths(paths):
         out = []
-        for p in self.paths:
+        for p in paths:
             if not os.path.exists(p):
                 out.append("-")
                 continue
@@ -102,38 +129,41 @@ class Recorder(object):
         return ";".join(out)
 
     def snap(self):
-        self.snaps.append((self.read_state(), tuple(self.stream), self.nf, self.rot_start, tuple(self.bounds)))
+        self.snaps.append(tuple((self.read_paths(a.paths), tuple(a.stream), a.nf, a.rot_start, tuple(a.bounds))
+                                for a in self.logs))
 
-    def event(self, kind, arg=None):
+    def event(self, kind, arg=None, path=None):
         if self.muted:
             return
-        if self.pending_flush is not None:      # the previous primitive has completed now
-            self.nf = self.pending_flush
-            self.pending_flush = None
+        for a in self.logs:           # the previous primitive has completed now
+            a.settle()
         if self.kill_at is not None and self.n == self.kill_at:
             os._exit(0)
         if self.snapshots:
             self.snap()
         self.n += 1
+        i = self.which(path) if path is not None else None
+        if i is None:
+            return
+        a = self.logs[i]
         if kind == "write":
             for line in arg.split("\n"):
                 parts = line.split("\t")
                 if len(parts) == 2 and parts[1].startswith("r") and "_" in parts[1] and parts[1][1:parts[1].index("_")].isdigit():
-                    self.stream.append(int(parts[1][1:parts[1].index("_")]))
+                    a.stream.append(int(parts[1][1:parts[1].index("_")]))
         elif kind in ("flush", "close"):
-            self.pending_flush = len(self.stream)
+            a.pending_flush = len(a.stream)
         elif kind == "rename":
-            k, src = arg
-            size = os.path.getsize(src) if os.path.exists(src) else None
-            self.renames.append((k, size))
+            k = a.paths.index(path)
+            size = os.path.getsize(path) if os.path.exists(path) else None
+            a.renames.append((k, size))
             if k == 0 and size is not None:
-                self.rot_start = len(self.stream)
-                self.bounds.append(len(self.stream))
+                a.rot_start = len(a.stream)
+                a.bounds.append(len(a.stream))
 
     def finish(self):
-        if self.pending_flush is not None:
-            self.nf = self.pending_flush
-            self.pending_flush = None
+        for a in self.logs:
+            a.settle()
         if self.kill_at is not None and self.n == self.kill_at:
             os._exit(0)
         if self.snapshots:
@@ -141,10 +171,9 @@ class Recorder(object):
 
     def life_ends(self):
         """the process dies: what was not flushed is gone"""
-        if self.pending_flush is not None:
-            self.nf = self.pending_flush
-            self.pending_flush = None
-        del self.stream[self.nf:]
+        for a in self.logs:
+            a.settle()
+            del a.stream[a.nf:]
 
 
 def canon_file(data):
@@ -290,14 +319,14 @@ class CHECK(core.Check):
     N_THOROUGH = 1000
     N_SEARCH = 200
     RULE = ("configurations keep 0-3 x cyclePeriod {0,.25,.5,1,2,3 s} x fileSize {0,40..300 bytes} x flushPeriod "
-            "{0,1,1.5,2,4 s} x reuse x log rule {always, once, update, change, deck, streak, never}; record streams of "
+            "{0,1,1.5,2,4 s} x reuse x loggers with 1-3 logs of rules {always, once, update, change, deck, streak, never} (mixed); record streams of "
             "2-16 ticks with varying record sizes and batch sizes (deck/streak: 0-3 queued items per tick), tick lengths "
             "1/8-1.5 s, restarts (STOP/START) and 1-3 process lives (fresh Logger/Log objects on the same prefix; a life "
             "ends after STOP or by a kill that discards the buffers); a small full grid of configurations over fixed "
             "streams; every primitive of every run is a crash point (read-back), and sampled crash points (all points for "
             "selected cases) are produced by killing a forked child; non-trivial = at least two records written; distinct "
             "by case content")
-    TRUSTED = ["correspondence: a real Logger with one Log on /verif/.scratch/log/<pid>; ocfn, file.write/flush/close, "
+    TRUSTED = ["correspondence: a real Logger with 1-3 Logs on /verif/.scratch/log/<pid> (per log: its own files, crash-state sequence and flush accounting; Logger.flush counts as a flush of every open log); ocfn, file.write/flush/close, "
                "os.fsync and os.rename are intercepted, the directory is read back from disk before each one (what a kill "
                "at that point leaves) and the sequence of distinct crash states is compared with the Lean driver; a "
                "process life that ends by a kill is emulated by redirecting the open file descriptors to /dev/null (the "
@@ -314,8 +343,10 @@ class CHECK(core.Check):
                "C23_D53_orig_headerless_after_empty_kill documents the code before the patch",
                "not covered: process lives that end in the middle of a control (crash points inside a control are covered "
                "for the files they leave, not for a restart from them), a different keep or directory layout in a later "
-               "life, failing renames / opens (OSError branches are in the model but proved unreachable), several logs "
-               "per logger, binary logs",
+               "life, failing renames / opens (OSError branches are in the model but proved unreachable), binary logs; "
+               "loggers with several logs: C23_logs_lockstep shows every log of a multi-log logger is where the single-log "
+               "logger would be, so all theorems hold per log and per-log crash point (C23_multi_*); one log raising an "
+               "exception in the middle of a Logger loop is not modelled",
                "observation (not a violation of the property as stated): with keep and reuse a STOP logs, lets the cycle "
                "timer rotate, and then rotates once more; with fileSize 0 the second rotation moves a header-only file "
                "into the copies, so with keep=1 every record of the session has fallen off right after STOP"]
@@ -335,73 +366,90 @@ class CHECK(core.Check):
                   "the sequence of crash states read back before every intercepted primitive, and by killing forked children.")
     LEVEL_NOTE = ("Trusted: Lean kernel; axioms propext, Classical.choice, Quot.sound; the hand transcription of "
                   "Log.reopen/close/flush/cycle and Logger.log validated only by the correspondence runs; kill tests "
-                  "exercise user-space buffers only (no power loss); one log per logger, empty directory at the first "
+                  "exercise user-space buffers only (no power loss); empty directory at the first "
                   "START; the tree is /repo with fix D53 applied.")
 
     # ---- protocol
+    @staticmethod
+    def rules_of(case):
+        c = case["cfg"]
+        return list(c["rules"]) if "rules" in c else [c["rule"]]
+
     def requests(self, case):
         c = case["cfg"]
-        return (["cfg %d %d %d %d %d %d" % (c["keep"], c["cycle"], c["fsize"], c["flush"], 1 if c["reuse"] else 0,
-                                            len(header(c["rule"])))] + self.model_ops(case) + ["states"])
+        rules = self.rules_of(case)
+        return (["cfg %d %d %d %d %d %s" % (c["keep"], c["cycle"], c["fsize"], c["flush"], 1 if c["reuse"] else 0,
+                                            ",".join(str(len(header(r, i))) for i, r in enumerate(rules)))] +
+                self.model_ops(case) + ["states %d" % i for i in range(len(rules))])
 
     def model_ops(self, case):
-        """the ops with what every run writes (sizes in bytes) put in front of the control that writes it"""
+        """the ops with what every log's action writes at a run (sizes in bytes) put in front of the control"""
         out = []
-        pl = Plan(case["cfg"]["rule"])
+        rules = self.rules_of(case)
+        pls = [Plan(r) for r in rules]
         for o in case["ops"]:
             w = o.split(" ")
             if w[0] == "adv":
-                pl.stamp += int(w[1])
+                for pl in pls:
+                    pl.stamp += int(w[1])
                 out.append(o)
             elif w[0] == "pad":
-                pl.pad = int(w[1])
+                for pl in pls:
+                    pl.pad = int(w[1])
             elif w[0] == "put":
-                pl.put(int(w[1]))
+                i, k = (int(w[1]), int(w[2])) if len(w) == 3 else (0, int(w[1]))
+                if i < len(pls):
+                    pls[i].put(k)
             elif w[0] == "reboot":
-                pl.new_life()
+                for pl in pls:
+                    pl.new_life()
                 out.append("reboot")
             elif w[0] == "ctl":
-                writes = (w[1] in ("start", "run")) or (w[1] == "stop" and pl.status != "stopped")
+                writes = (w[1] in ("start", "run")) or (w[1] == "stop" and pls[0].status != "stopped")
                 if writes:
-                    pl.before_run()
-                    b = pl.batch()
-                    out.append("recs " + ("-" if b is None else ("." if not b else ",".join(str(x) for x in b))))
-                    pl.ran(b)
-                pl.status = {"start": "started", "run": "running", "stop": "stopped"}[w[1]]
+                    for i, pl in enumerate(pls):
+                        pl.before_run()
+                        b = pl.batch()
+                        out.append("recs %d %s" % (i, "-" if b is None else ("." if not b else ",".join(str(x) for x in b))))
+                        pl.ran(b)
+                for pl in pls:
+                    pl.status = {"start": "started", "run": "running", "stop": "stopped"}[w[1]]
                 out.append(o)
         return out
 
     def model_post(self, case, replies):
-        return ["states: " + replies[-1], "kills: ok"]
+        n = len(self.rules_of(case))
+        return ["states %d: %s" % (i, r) for i, r in enumerate(replies[-n:])] + ["kills: ok"]
 
     # ---- implementation adapter
     _n = 0
-    _region = {}
 
     def run_real(self, case, root, kill_at=None, snapshots=True):
         """run the history (all its process lives) in `root` with the primitives intercepted"""
         from ioflo.base import housing, storing, logging, globaling, tasking
         from ioflo.aid.odicting import odict
         c = case["cfg"]
-        rule = c["rule"]
-        rec = Recorder(kill_at=kill_at, snapshots=snapshots)
+        rules = self.rules_of(case)
+        nlogs = len(rules)
+        rec = Recorder(nlogs, kill_at=kill_at, snapshots=snapshots)
         real_ocfn, real_rename, real_fsync = logging.ocfn, os.rename, os.fsync
-        real_log_flush = logging.Log.flush
+        real_log_flush, real_logger_flush = logging.Log.flush, logging.Logger.flush
         keepbox = [0]
 
         def ocfn(path, mode="r+", binary=False):
-            if not rec.paths and not rec.muted:      # first open of a life: this is the log directory
+            if not rec.logs[0].paths and not rec.muted:      # first open of a life: this is the log directory
                 d = os.path.dirname(path)
-                rec.paths = [os.path.join(d, BASE + ".txt")] + [os.path.join(d, "%s%02d.txt" % (BASE, k + 1))
-                                                               for k in range(keepbox[0])]
-            rec.event("open", (path, mode))
+                for i, a in enumerate(rec.logs):
+                    b = "%s%d" % (BASE, i)
+                    a.paths = [os.path.join(d, b + ".txt")] + [os.path.join(d, "%s%02d.txt" % (b, k + 1))
+                                                              for k in range(keepbox[0])]
+            rec.event("open", mode, path)
             p = Proxy(real_ocfn(path, mode, binary), rec, path)
             rec.files.append(p)
             return p
 
         def rename(a, b):
-            k = rec.paths.index(a) if a in rec.paths else -1
-            rec.event("rename", (k, a))
+            rec.event("rename", None, a)
             return real_rename(a, b)
 
         def fsync(fd):
@@ -410,15 +458,28 @@ class CHECK(core.Check):
             rec.event("fsync")
             return real_fsync(fd)
 
+        def mark(i):
+            a = rec.logs[i]
+            a.pending_flush = None
+            a.nf = len(a.stream)
+
         def log_flush(lg):
             was_open = bool(lg.file) and not lg.file.closed
             r = real_log_flush(lg)
-            if was_open and not rec.muted:   # Log.flush() has returned: everything written so far counts as flushed
-                rec.pending_flush = None
-                rec.nf = len(rec.stream)
+            if was_open and not rec.muted:   # Log.flush() has returned: everything it wrote so far counts as flushed
+                mark(int(lg.name[len(BASE):]))
+            return r
+
+        def logger_flush(lgr):
+            r = real_logger_flush(lgr)
+            if not rec.muted:                # Logger.flush() has returned: that is a flush of every open log
+                for lg in lgr.logs:
+                    if lg.file and not lg.file.closed:
+                        mark(int(lg.name[len(BASE):]))
             return r
 
         life = {}
+        pls = [Plan(r) for r in rules]
 
         def new_life():
             for cls in (housing.House, storing.Store, logging.Logger, logging.Log, tasking.Tasker):
@@ -428,21 +489,21 @@ class CHECK(core.Check):
             logger = logging.Logger(name="L", store=store, prefix=root, reuse=bool(c["reuse"]), keep=c["keep"],
                                     cyclePeriod=c["cycle"] / 8.0, fileSize=c["fsize"], flushPeriod=c["flush"] / 8.0)
             keepbox[0] = logger.keep
-            share = store.create("s.v")
-            share.change(value=[] if rule == "streak" else pl.cur)
-            log = logging.Log(name=BASE, store=store, kind="text", baseFilename=BASE,
-                              rule=getattr(globaling, rule.upper()))
-            log.addLoggee(TAG, share, ["value"])
-            logger.addLog(log)
+            shares = []
+            for i, rule in enumerate(rules):
+                share = store.create("s.v%d" % i)
+                share.change(value=[] if rule == "streak" else pls[i].cur)
+                log = logging.Log(name="%s%d" % (BASE, i), store=store, kind="text", baseFilename="%s%d" % (BASE, i),
+                                  rule=getattr(globaling, rule.upper()))
+                log.addLoggee(TAG, share, ["value"])
+                logger.addLog(log)
+                shares.append(share)
             logger.resolve()
             store.changeStamp(0.0)
-            life.update(store=store, logger=logger, share=share)
-            if not c["reuse"]:              # a new, empty directory: the stream starts over
-                rec.paths = []
-                del rec.stream[:]
-                rec.nf = 0
-                rec.rot_start = 0
-                rec.bounds = []
+            life.update(store=store, logger=logger, shares=shares)
+            if not c["reuse"]:              # a new, empty directory: the streams start over
+                for a in rec.logs:
+                    a.reset()
             rec.files = []
 
         def end_life():
@@ -461,21 +522,25 @@ class CHECK(core.Check):
                 pass
             rec.muted = False
 
-        pl = Plan(rule)
         logging.ocfn, os.rename, os.fsync = ocfn, rename, fsync
-        logging.Log.flush = log_flush
+        logging.Log.flush, logging.Logger.flush = log_flush, logger_flush
         try:
             new_life()
             for o in case["ops"]:
                 w = o.split(" ")
                 if w[0] == "adv":
-                    pl.stamp += int(w[1])
+                    for pl in pls:
+                        pl.stamp += int(w[1])
                     life["store"].advanceStamp(int(w[1]) / 8.0)
                 elif w[0] == "pad":
-                    pl.pad = int(w[1])
+                    for pl in pls:
+                        pl.pad = int(w[1])
                 elif w[0] == "put":
-                    vals = pl.put(int(w[1]))
-                    share = life["share"]
+                    i, k = (int(w[1]), int(w[2])) if len(w) == 3 else (0, int(w[1]))
+                    if i >= nlogs:
+                        continue
+                    vals = pls[i].put(k)
+                    share, rule = life["shares"][i], rules[i]
                     if rule == "deck":
                         for v in vals:
                             share.push(odict(value=v))
@@ -488,20 +553,25 @@ class CHECK(core.Check):
                         share.change(value=vals[0])
                 elif w[0] == "reboot":
                     end_life()
-                    pl.new_life()
+                    for pl in pls:
+                        pl.new_life()
                     new_life()
                 elif w[0] == "ctl":
-                    writes = (w[1] in ("start", "run")) or (w[1] == "stop" and pl.status != "stopped")
+                    writes = (w[1] in ("start", "run")) or (w[1] == "stop" and pls[0].status != "stopped")
+                    bs = []
                     if writes:
-                        v = pl.before_run()
-                        if v is not None:
-                            life["share"].change(value=v)
-                        b = pl.batch()
+                        for i, pl in enumerate(pls):
+                            v = pl.before_run()
+                            if v is not None:
+                                life["shares"][i].change(value=v)
+                            bs.append(pl.batch())
                     life["logger"].runner.send({"start": globaling.START, "run": globaling.RUN,
                                                 "stop": globaling.STOP}[w[1]])
                     if writes:
-                        pl.ran(b)
-                    pl.status = {"start": "started", "run": "running", "stop": "stopped"}[w[1]]
+                        for pl, b in zip(pls, bs):
+                            pl.ran(b)
+                    for pl in pls:
+                        pl.status = {"start": "started", "run": "running", "stop": "stopped"}[w[1]]
             rec.finish()
         finally:
             rec.snapshots = False
@@ -511,11 +581,11 @@ class CHECK(core.Check):
             except Exception:
                 pass
             logging.ocfn, os.rename, os.fsync = real_ocfn, real_rename, real_fsync
-            logging.Log.flush = real_log_flush
+            logging.Log.flush, logging.Logger.flush = real_log_flush, real_logger_flush
         return rec, keepbox[0]
 
     def kill_run(self, case, k):
-        """really kill a child before primitive k; return the files it leaves"""
+        """really kill a child before primitive k; return, per log directory found, the files it leaves"""
         CHECK._n += 1
         root = os.path.join(scratch(), "k%d" % CHECK._n)
         os.makedirs(root)
@@ -531,21 +601,20 @@ class CHECK(core.Check):
         try:
             if os.WEXITSTATUS(status) != 0:
                 return "child-exit-%d" % os.WEXITSTATUS(status)
-            keep = self._keep
+            keep, n = self._keep, len(self.rules_of(case))
             hd = os.path.join(root, "H")
-            ds = sorted(os.listdir(hd)) if os.path.isdir(hd) else []
-            if not ds:
-                return ";".join(["-"] * (keep + 1))
-            # the directory of the last life (with reuse there is only one)
-            ds.sort(key=lambda x: os.path.getmtime(os.path.join(hd, x)))
-            return [self._read_dir(os.path.join(hd, x), keep) for x in ds]
+            ds = os.listdir(hd) if os.path.isdir(hd) else []
+            return [self._read_dir(os.path.join(hd, x), keep, n) for x in ds]
         finally:
             shutil.rmtree(root, ignore_errors=True)
 
-    def _read_dir(self, d, keep):
-        r = Recorder()
-        r.paths = [os.path.join(d, BASE + ".txt")] + [os.path.join(d, "%s%02d.txt" % (BASE, j + 1)) for j in range(keep)]
-        return r.read_state()
+    def _read_dir(self, d, keep, n):
+        out = []
+        for i in range(n):
+            b = "%s%d" % (BASE, i)
+            out.append(Recorder.read_paths([os.path.join(d, b + ".txt")] +
+                                           [os.path.join(d, "%s%02d.txt" % (b, j + 1)) for j in range(keep)]))
+        return " | ".join(out)
 
     def impl(self, case):
         CHECK._n += 1
@@ -556,23 +625,31 @@ class CHECK(core.Check):
         finally:
             shutil.rmtree(root, ignore_errors=True)
         self._keep = keep
+        n = len(self.rules_of(case))
         nothing = ";".join(["-"] * (keep + 1))
-        states = [s[0] if s[0] != "" else nothing for s in rec.snaps]
-        ded = []
-        for s in states:
-            if not ded or ded[-1] != s:
-                ded.append(s)
-        self._last = (core.case_key(case), rec, states)
+        per_log = [[(s[i][0] if s[i][0] != "" else nothing) for s in rec.snaps] for i in range(n)]
+        out = []
+        for i in range(n):
+            ded = []
+            for s in per_log[i]:
+                if not ded or ded[-1] != s:
+                    ded.append(s)
+            out.append("states %d: %s" % (i, " || ".join(ded)))
+        self._last = (core.case_key(case), rec, per_log)
         kills = case.get("kills", [])
         bad = None
-        pts = range(len(states)) if kills == "all" else [k for k in kills if k < len(states)]
+        total = len(rec.snaps)
+        pts = range(total) if kills == "all" else [k for k in kills if k < total]
         for k in pts:
+            want = " | ".join(per_log[i][k] for i in range(n))
             got = self.kill_run(case, k)
-            ok = (got == states[k]) if not isinstance(got, list) else (states[k] in got or (states[k] == nothing and not got))
+            ok = (want in got) if isinstance(got, list) else False
+            if isinstance(got, list) and not got and want == " | ".join([nothing] * n):
+                ok = True
             if not ok:
-                bad = "kills: mismatch at primitive %d: killed child left %s, read-back was %s" % (k, got, states[k])
+                bad = "kills: mismatch at primitive %d: killed child left %s, read-back was %s" % (k, got, want)
                 break
-        return ["states: " + " || ".join(ded), bad or "kills: ok"]
+        return out + [bad or "kills: ok"]
 
     # ---- oracle
     def failures(self, case, out):
@@ -586,82 +663,100 @@ class CHECK(core.Check):
             last = getattr(self, "_last", None)
             if last is None or last[0] != core.case_key(case):
                 return [("harness", "adapter failed")]
-        _, rec, states = last
-        if len(out) > 1 and out[1] != "kills: ok":
-            return [("kill", out[1])]
+        _, rec, per_log = last
+        if out and out[-1] != "kills: ok":
+            return [("kill", out[-1])]
         fsize = max(0, case["cfg"]["fsize"])
-        for k, size in rec.renames:
-            if k == 0 and size is not None and fsize and size < fsize:
-                return [("size", "rotated a main file of %d bytes, threshold %d" % (size, fsize))]
         keep = self._keep
-        for idx, (st, stream, nf, rot, bounds) in enumerate(rec.snaps):
-            if st == "":
-                continue
-            pos = {n: i for i, n in enumerate(stream)}
-            files = parse_state(st)
-            seq = []
-            for j in range(len(files) - 1, -1, -1):          # oldest first
-                f = files[j]
-                if f is None:
+        for li, a in enumerate(rec.logs):
+            for k, size in a.renames:
+                if k == 0 and size is not None and fsize and size < fsize:
+                    return [("size", "log %d: rotated a main file of %d bytes, threshold %d" % (li, size, fsize))]
+        for idx, snap in enumerate(rec.snaps):
+            for li, (st, stream, nf, rot, bounds) in enumerate(snap):
+                if st == "":
                     continue
-                if any(t.startswith("?") for t in f):
-                    return [("content", "crash point %d: file %d holds something that is not a header or a whole record: %s" % (idx, j, f))]
+                f = self.check_state(idx, li, st, stream, nf, rot, bounds, keep)
                 if f:
-                    if f[0] != "H":
-                        return [("header", "crash point %d: file %d does not start with the header: %s" % (idx, j, f[:3]))]
-                    if "H" in f[1:]:
-                        return [("header", "crash point %d: file %d has a second header" % (idx, j))]
-                for t in f[1:]:
-                    n = int(t[1:t.index(":")])
-                    if n not in pos:
-                        return [("lost", "crash point %d: record %d is in the files but was never written or was lost with a "
-                                 "killed process: %s" % (idx, n, st))]
-                    if j > 0 and pos[n] >= rot:
-                        return [("newest", "crash point %d: record %d, written after the last rotation, is in copy %d" % (idx, n, j))]
-                    if j == 0 and pos[n] < rot:
-                        return [("newest", "crash point %d: record %d, written before the last rotation, is in the newest file" % (idx, n))]
-                    seq.append(n)
-            # nothing flushed may be missing except whole stretches that fell off the oldest copy: the files hold
-            # the flushed records from the start of one of the last keep (+1 while a rotation is under way) stretches
-            m = len(bounds)
-            starts = set()
-            for back in (keep, keep - 1):
-                if back < 0:
-                    continue
-                starts.add(bounds[m - back - 1] if m - back - 1 >= 0 else 0)
-            if not any(seq == list(stream[a:nf]) for a in starts if a <= nf):
-                return [("flushed", "crash point %d: records %s were written before the last flush, rotations after %s of them, "
-                         "keep %d; the files hold %s: %s" % (idx, list(stream[:nf]), list(bounds), keep, seq, st))]
+                    return [f]
         return []
+
+    @staticmethod
+    def check_state(idx, li, st, stream, nf, rot, bounds, keep):
+        pos = {n: i for i, n in enumerate(stream)}
+        files = parse_state(st)
+        seq = []
+        where = "crash point %d, log %d" % (idx, li)
+        for j in range(len(files) - 1, -1, -1):          # oldest first
+            f = files[j]
+            if f is None:
+                continue
+            if any(t.startswith("?") for t in f):
+                return ("content", "%s: file %d holds something that is not a header or a whole record: %s" % (where, j, f))
+            if f:
+                if f[0] != "H":
+                    return ("header", "%s: file %d does not start with the header: %s" % (where, j, f[:3]))
+                if "H" in f[1:]:
+                    return ("header", "%s: file %d has a second header" % (where, j))
+            for t in f[1:]:
+                n = int(t[1:t.index(":")])
+                if n not in pos:
+                    return ("lost", "%s: record %d is in the files but was never written or was lost with a killed "
+                            "process: %s" % (where, n, st))
+                if j > 0 and pos[n] >= rot:
+                    return ("newest", "%s: record %d, written after the last rotation, is in copy %d" % (where, n, j))
+                if j == 0 and pos[n] < rot:
+                    return ("newest", "%s: record %d, written before the last rotation, is in the newest file" % (where, n))
+                seq.append(n)
+        # nothing flushed may be missing except whole stretches that fell off the oldest copy: the files hold
+        # the flushed records from the start of one of the last keep (+1 while a rotation is under way) stretches
+        m = len(bounds)
+        starts = set()
+        for back in (keep, keep - 1):
+            if back < 0:
+                continue
+            starts.add(bounds[m - back - 1] if m - back - 1 >= 0 else 0)
+        if not any(seq == list(stream[a:nf]) for a in starts if a <= nf):
+            return ("flushed", "%s: records %s were written before the last flush, rotations after %s of them, keep %d; "
+                    "the files hold %s: %s" % (where, list(stream[:nf]), list(bounds), keep, seq, st))
+        return None
 
     def oracle(self, case, out):
         f = self.failures(case, out)
-        self._fail = (core.case_key(case), f)
         return "; ".join(m for _, m in f) if f else None
 
     def nontrivial(self, case, out):
-        return out[0].count(",r") >= 1
+        return any(o.count(",r") >= 1 for o in out[:-1])
 
     def bucket(self, case, out):
         c = case["cfg"]
+        rules = self.rules_of(case)
         lives = 1 + sum(1 for o in case["ops"] if o == "reboot")
-        return "%s,keep%d%s%s,lives%d%s" % (c["rule"], c["keep"], ",size" if c["fsize"] > 0 else "",
+        return "%s,keep%d%s%s,lives%d%s" % ("+".join(rules), c["keep"], ",size" if c["fsize"] > 0 else "",
                                             ",reuse" if c["reuse"] else "", lives,
-                                            ",rotated" if (" || -;" in out[0] and c["keep"] > 0) else "")
+                                            ",rotated" if (any(" || -;" in o for o in out) and c["keep"] > 0) else "")
 
     # ---- generators
     def gen_case(self, rng, tier, clean=False):
         keep = rng.choice([0, 1, 1, 2, 2, 3])
-        rule = rng.choice(["always", "always", "always", "deck", "deck", "streak", "streak", "update", "change", "once", "never"])
+        pick = lambda: rng.choice(["always", "always", "always", "deck", "deck", "streak", "streak", "update", "change",
+                                   "once", "never"])
+        nlogs = rng.choice([1, 1, 2, 2, 3])
+        rules = [pick() for _ in range(nlogs)]
         cfg = {"keep": keep, "cycle": rng.choice([0, 2, 4, 8, 8, 16, 24]), "fsize": rng.choice([0, 0, 40, 60, 90, 150, 300]),
-               "flush": rng.choice([0, 8, 8, 12, 16, 32]), "reuse": rng.random() < 0.6, "rule": rule}
+               "flush": rng.choice([0, 8, 8, 12, 16, 32]), "reuse": rng.random() < 0.6, "rules": rules}
         ops = []
         lives = rng.choice([1, 1, 2, 2, 3])
+
+        def puts():
+            for i in range(nlogs):
+                if rng.random() < 0.6:
+                    ops.append("put %d %d" % (i, rng.choice([1, 1, 1, 2, 3])))
+
         for life in range(lives):
             if rng.random() < 0.3:
                 ops.append("pad %d" % rng.randrange(30))
-            if rng.random() < 0.5:
-                ops.append("put %d" % rng.choice([1, 1, 2, 3]))
+            puts()
             ops.append("ctl start")
             started = True
             for t in range(rng.choice([1, 2, 4, 6, 8, 12])):
@@ -669,8 +764,7 @@ class CHECK(core.Check):
                     ops.append("adv %d" % rng.choice([1, 2, 4, 4, 8, 8, 12]))
                 if rng.random() < 0.2:
                     ops.append("pad %d" % rng.randrange(40))
-                if rng.random() < 0.6:
-                    ops.append("put %d" % rng.choice([1, 1, 1, 2, 3]))
+                puts()
                 r = rng.random()
                 if started:
                     if r < 0.85:
@@ -686,8 +780,6 @@ class CHECK(core.Check):
                 ops.append("ctl stop")
                 started = False
             if life < lives - 1:
-                if clean and started:
-                    ops.append("ctl stop")
                 ops.append("reboot")
         return {"cfg": cfg, "ops": ops}
 
@@ -695,34 +787,41 @@ class CHECK(core.Check):
         for i in range(n):
             c = self.gen_case(rng, tier)
             if tier == "thorough":
-                c["kills"] = "all" if i % 150 == 0 else ([rng.randrange(60)] if i % 2 == 0 else [])
+                c["kills"] = "all" if i % 150 == 0 else ([rng.randrange(80)] if i % 2 == 0 else [])
             else:
-                c["kills"] = [rng.randrange(40)] if i % 8 == 0 else []
+                c["kills"] = [rng.randrange(60)] if i % 8 == 0 else []
             yield c
 
     def exhaustive(self, tier):
-        """a small grid of configurations x rules over fixed streams: one life with two rotations, and two lives
-        (the second on the files of the first) that both rotate"""
-        one = ["put 2", "ctl start", "adv 4", "put 1", "ctl run", "adv 4", "put 2", "ctl run", "adv 8", "put 1", "ctl run",
-               "adv 8", "put 1", "ctl run", "ctl stop"]
-        two = ["put 1", "ctl start", "adv 8", "put 2", "ctl run", "adv 8", "put 1", "ctl run", "ctl stop", "reboot",
-               "put 1", "ctl start", "adv 8", "put 2", "ctl run", "adv 8", "put 1", "ctl run", "adv 8", "put 1", "ctl run"]
-        killed = ["put 1", "ctl start", "adv 8", "put 2", "ctl run", "adv 2", "put 1", "ctl run", "reboot",
-                  "put 1", "ctl start", "adv 8", "put 2", "ctl run", "adv 8", "put 1", "ctl run"]
+        """a small grid of configurations x rule sets over fixed streams: one life with two rotations, two lives
+        (the second on the files of the first) that both rotate, a life that is killed; and a flush tick without
+        rotation followed by a kill, for loggers with one, two and three logs"""
+        def puts(n):
+            return ["put %d 1" % i for i in range(n)]
         keeps = [0, 2] if tier == "quick" else [0, 1, 2, 3]
-        rules = ["always", "deck"] if tier == "quick" else RULES
-        for rule, keep, cycle, fsize, flush, reuse in itertools.product(rules, keeps, [0, 8, 16], [0, 60], [8, 16],
-                                                                        [False, True]):
+        sets = ([["always"], ["deck"], ["always", "deck"], ["streak", "always", "update"]] if tier == "quick" else
+                [[r] for r in RULES] + [["always", "deck"], ["deck", "always"], ["streak", "always", "update"],
+                                        ["change", "never", "deck"], ["once", "streak"]])
+        for rules, keep, cycle, fsize, flush, reuse in itertools.product(sets, keeps, [0, 8, 16], [0, 60], [8, 16],
+                                                                         [False, True]):
+            n = len(rules)
+            p = puts(n)
+            one = p + p + ["ctl start", "adv 4"] + p + ["ctl run", "adv 4"] + p + p + ["ctl run", "adv 8"] + p + \
+                  ["ctl run", "adv 8"] + p + ["ctl run", "ctl stop"]
+            two = p + ["ctl start", "adv 8"] + p + p + ["ctl run", "adv 8"] + p + ["ctl run", "ctl stop", "reboot"] + p + \
+                  ["ctl start", "adv 8"] + p + p + ["ctl run", "adv 8"] + p + ["ctl run", "adv 8"] + p + ["ctl run"]
+            killed = p + ["ctl start", "adv 8"] + p + p + ["ctl run", "adv 2"] + p + ["ctl run", "reboot"] + p + \
+                     ["ctl start", "adv 8"] + p + p + ["ctl run", "adv 8"] + p + ["ctl run"]
             for name, ops in (("one", one), ("two", two), ("killed", killed)):
                 if tier == "quick" and (flush == 16 or (cycle == 0 and name != "one")):
                     continue
-                if tier == "thorough" and flush == 16 and rule not in ("always", "deck"):
+                if tier == "thorough" and flush == 16 and rules not in (["always"], ["deck"], ["always", "deck"]):
                     continue
-                sel = (keep == 2 and cycle == 8 and flush == 8)
-                yield {"cfg": {"keep": keep, "cycle": cycle, "fsize": fsize, "flush": flush, "reuse": reuse, "rule": rule},
+                sel = (keep == 2 and cycle == 8 and flush == 8 and fsize == 0 and reuse)
+                yield {"cfg": {"keep": keep, "cycle": cycle, "fsize": fsize, "flush": flush, "reuse": reuse, "rules": rules},
                        "ops": ops,
-                       "kills": "all" if (sel and fsize == 0 and reuse and tier == "thorough" and rule in ("always", "deck"))
-                       else ([7, 12, 25] if (sel and rule == "deck" and fsize == 0 and reuse) else [])}
+                       "kills": "all" if (sel and tier == "thorough" and rules in (["always"], ["always", "deck"]))
+                       else ([7, 12, 25, 40] if (sel and rules == ["always", "deck"]) else [])}
 
     def search(self, rng, n, tier):
         for i in range(n):
